@@ -457,7 +457,7 @@ def run(ctx):
                 emitted.add(name)
     if not emitted:
         raise AnalysisError('the comparison nodes emit no __Pyx_ helper by name any more')
-    from ..rules import switchpol
+    from ..rules import switchpol, sC19
     return [
         switchpol.rule_switch_polarity(ctx),
         rule_SWITCH(ctx),
@@ -467,4 +467,8 @@ def run(ctx):
         iface.rule_I5(ctx, modules=('ExprNodes',), floor=5, names=lambda n: n in emitted, rid='C19-I5'),
         rule_TAB(ctx),
         rule_MEMEQ(ctx),
+        sC19.rule_same(ctx),
+        sC19.rule_cmpiv(ctx),
+        # sC19.rule_cmplen(ctx),        # pending finding (FINDING_1: bytearray() < bytearray() is True)
+        # sC19.rule_cmpiv_llp64(ctx),   # pending finding (FINDING_2: 32-bit long fallback of CompareFloatInt)
     ]
